@@ -92,6 +92,7 @@ class Run:
         self.canaries_ok = 0
         self.canaries_total = 0
         self.bounded_notes = []
+        self.misfits = []            # obligations of statement-level contracts whose recorded SHAPE differs: the contract does not fit this tree
         import shutil
         shutil.rmtree(os.path.join(REPLAYS, prop_id), ignore_errors=True)   # replays belong to one run
 
@@ -171,7 +172,8 @@ class Run:
             self.engine_faults.append("zero obligations generated")
         # a required clause that was neither discharged nor refuted means the harness lost it
         failed_clauses = {o.name.split("[")[0].split("@")[0] for o in self.obligations if o.status != "discharged"}
-        truly_missing = [c for c in missing if c not in failed_clauses
+        not_discharged = [o.name for o in self.obligations if o.status != "discharged"]
+        truly_missing = [c for c in missing if c not in failed_clauses and not any(n == c or n.startswith(c + "::") for n in not_discharged)
                          and not any(c == k["key"].split("[")[0].split("@")[0] for k, _ in self.known_hits)]
         if truly_missing and not self.violations:
             self.engine_faults.append(f"required clauses without any obligation: {truly_missing}")
@@ -196,6 +198,16 @@ class Run:
             "known_findings_hit": [k["key"] for k, _ in self.known_hits],
             "bounded_parts": self.bounded_notes,
         }
+        if self.misfits:
+            fns = sorted({m.split("::")[0] for m in self.misfits})
+            for key in list(self.functions):
+                if any(f in key for f in fns) and str(self.functions[key]).startswith("proved"):
+                    self.functions[key] = "NOT proved on this tree: the statement-level contract does not fit (shape differs); per-configuration clauses decide"
+            cov["statement_contracts_not_fitting_this_tree"] = {
+                "functions": fns, "obligations": self.misfits[:40],
+                "meaning": "the recorded statements / calls of these functions differ in SHAPE from what the sidecar contract expects: the all-configuration "
+                           "argument for them does NOT apply to this tree (they are NOT counted as proved here); only the per-configuration clauses decide them"}
+            cov["bounded_parts"] = list(self.bounded_notes) + [f"{f}: statement-level contract does not fit this tree - decided per configuration only" for f in fns]
         if exhaustive is not None:
             cov["exhaustive"] = exhaustive
         cov.update(self.extra)
@@ -222,6 +234,9 @@ class Run:
                 printed.add(k["key"])
                 n = sum(1 for kk, _ in self.known_hits if kk["key"] == k["key"])
                 print(f"KNOWN-FINDING: property={self.prop_id} {k['key']}: {k['text']} [{n} refuted obligation(s) match this finding]")
+        for f_ in sorted({m.split("::")[0] for m in self.misfits}):
+            print(f"NOTE: the statement-level contract of {f_} does not fit this tree (shape differs): not proved for all configurations here; "
+                  f"the per-configuration clauses decide")
         print(f"[{self.prop_id}] tier={self.tier} obligations={n_ob} discharged={n_dis} failed={n_fail} "
               f"undecided={n_und} configs={self.configs} canaries={self.canaries_ok}/{self.canaries_total} "
               f"wall={wall:.1f}s")
